@@ -571,9 +571,13 @@ def correspond(chk, tier, rng):
     if tier == "thorough":
         ex2 = gen.extract()
         syms = [k for k in ex2["lut"]]
+        # compounds over non-logarithmic symbols: a product containing a power of B / Np is refused or
+        # accepted by `Unit.simplify()` inside `_multiply_units`, which the follow-up context takes as a
+        # parameter (C04/C05 model it); atomic logarithmic units are in the core set
+        plain = [k for k, v in ex2["lut"].items() if v[2][7] == "0" and v[1] == 0]
         for _ in range(150):
             cases.append((rng.choice(["default", "added", "modified-default", "removed-default", "unit-system"]),
-                          rng.choice(syms) if rng.random() < 0.6 else gen.random_compound(rng, max_factors=3), rng.choice(["a", "q"])))
+                          rng.choice(syms) if rng.random() < 0.6 else gen.random_compound(rng, max_factors=3, pool=plain), rng.choice(["a", "q"])))
     lines, meta = [], []
     FEW = ["sin", "cos", "add_degC", "add_K", "sub_self", "mul_self", "unit_mul_m", "unit_mul_dB", "unit_pow2", "in_base", "in_cgs",
            "to_deg", "to_K", "to_kg", "to_m", "to_vfoo"]
@@ -827,7 +831,7 @@ WITNESSES = [
     ("identity_loss_shows_asIs", "deepcopyArray", "reg = default_unit_registry\nq = unyt_quantity(300.0, cold_unit('K', reg))\n",
      "x + unyt_quantity(1.0, 'degC', registry=R)"),
     ("identity_loss_shows_asIs", "pickleUnit", "reg = default_unit_registry\nq = unyt_quantity(3.0, cold_unit('dB', reg))\n", "x.units * Unit('m', registry=R)"),
-    ("C11_counterexample", "pickleArray", "reg = default_unit_registry\nq = unyt_quantity(2.0, cold_unit('delta_degC', reg))\n", None),
+    ("C11_counterexample", "pickleArray", "reg = UnitRegistry()\nreg.add('vfoo', 3.0, D.length)\nq = unyt_quantity(2.0, cold_unit('vfoo', reg))\nreg.modify('vfoo', 5.0)\n", None),
     ("other_defects_show", "deepcopyArray", "reg = UnitRegistry()\nreg.modify('g', 2.0)\nq = unyt_quantity(2.0, cold_unit('g', reg))\n", "x.to('kg')"),
     ("other_defects_show", "pickleArray", "reg = UnitRegistry()\nreg.remove('lb')\nq = unyt_quantity(2.0, cold_unit('km', reg))\n", None),
     ("other_defects_show", "pickleArray", "reg = UnitRegistry(unit_system='cgs')\nq = unyt_quantity(2.0, cold_unit('km', reg))\n", "x.in_base()"),
